@@ -9,6 +9,7 @@ import (
 	"os"
 	"os/exec"
 	"path/filepath"
+	"runtime/debug"
 	"strconv"
 	"strings"
 	"sync"
@@ -22,8 +23,8 @@ type Result struct {
 	Argv     []string
 	Stdout   []byte
 	Stderr   []byte
-	Exit     int  // exit status, -1 if signalled
-	Signal   int  // terminating signal, 0 if none
+	Exit     int // exit status, -1 if signalled
+	Signal   int // terminating signal, 0 if none
 	CPUms    int64
 	WallKill bool // the wall-clock watchdog fired (=> inconclusive, never a verdict)
 	StartErr error
@@ -175,17 +176,31 @@ func (s *Scratch) Path(name string) string {
 	return filepath.Join(s.Dir, fmt.Sprintf("%d-%s", s.n.Add(1), name))
 }
 
-// Parallel runs f(i) for i in [0,n) on w workers; stops early once stop() is true.
+// Parallel runs f(i) for i in [0,n) on w workers. A panic in a worker is
+// re-raised in the caller after all workers stopped (so that the driver can
+// report it as a harness failure instead of dying with a raw goroutine dump).
 func Parallel(n, w int, f func(i int)) {
 	if w < 1 {
 		w = 1
 	}
 	var next atomic.Int64
 	var wg sync.WaitGroup
+	var mu sync.Mutex
+	var failure any
 	for k := 0; k < w; k++ {
 		wg.Add(1)
 		go func() {
 			defer wg.Done()
+			defer func() {
+				if p := recover(); p != nil {
+					mu.Lock()
+					if failure == nil {
+						failure = fmt.Sprintf("%v\n%s", p, debug.Stack())
+					}
+					mu.Unlock()
+					next.Store(int64(n)) // stop handing out work
+				}
+			}()
 			for {
 				i := int(next.Add(1) - 1)
 				if i >= n {
@@ -196,6 +211,9 @@ func Parallel(n, w int, f func(i int)) {
 		}()
 	}
 	wg.Wait()
+	if failure != nil {
+		panic(failure)
+	}
 }
 
 // ShellQuote renders argv for replay files / messages.
